@@ -76,6 +76,14 @@ def check(ctx):
         # C01 on the REAL receive loops: byte strings of every length (0 included) over UDP, then a request that must be answered; bursts
         from . import fam_life
         lt, sockst = fam_life.sockets_job(ctx)
+        # a lease store that cannot be written for a while (somebody else's write transaction on the database): every request is
+        # answered or dropped - during the fault and, above all, after it; none waits for ever (20 s watchdog per request)
+        from . import fam_range
+        fargs = ["-mode", "fault", "-count", 8 if ctx.quick else 200, "-seed", ctx.seed]
+        fwd = ctx.scratch.sub("store-fault")
+        ft = os.path.join(fwd, "fault.ndjson")
+        core.run_harness(ctx.need_harness(), ["range"] + [str(a) for a in fargs] + ["-out", ft, "-dir", fwd], fwd, timeout=1800)
+        runner.run_job(ctx, fam_range._job(ctx, "store-fault", ft, fam_range._rerun([str(a) for a in fargs])))
         lifecycle_lines = sum(1 for _ in open(lt))
         sock_dgs = sockst["datagrams_over_real_sockets"]
         # everything else about Start / Serve / Wait / Close: drift detector
@@ -200,6 +208,9 @@ def replay(ctx, path):
     elif job == "chains":
         j = runner.TraceJob("replay", "ServerTrace", None, lens, replay=_rerun(["-mode", "chains", "-seed", seed, "-level", 1, "-ndg", 40, "-par", max(4, core.NCPU - 2)]),
                             boundary=lambda e: False)
+    elif job == "store-fault":
+        from . import fam_range
+        j = fam_range._job(ctx, "replay", None, fam_range._rerun(["-mode", "fault", "-count", "8", "-seed", str(seed)]))
     elif job == "sched":
         j = runner.TraceJob("replay", "ServerTrace", None, lens, replay=_rerun(["-mode", "sched"]), boundary=lambda e: False)
     elif job.startswith("conc-"):
